@@ -867,6 +867,36 @@ impl<'d> Session<'d> {
         }
         targets.retain(|(name, _, _)| schemas_of.get(name).map(|s| s.len() == 1).unwrap_or(false));
         let defs = self.defs.clone();
+        // recursive types: a default that omits a member of the very type it
+        // belongs to unfolds for ever once nested defaults are filled in (the
+        // schema itself is paradoxical); no value is predicted for types that
+        // reach a reference cycle
+        let mut reach: BTreeMap<String, BTreeSet<String>> = BTreeMap::new();
+        for (n, sch) in &defs {
+            reach.insert(n.clone(), model::ref_targets(sch));
+        }
+        loop {
+            let mut grew = false;
+            let snapshot = reach.clone();
+            for (_, tos) in reach.iter_mut() {
+                let more: BTreeSet<String> = tos.iter().flat_map(|t| snapshot.get(t).cloned().unwrap_or_default()).collect();
+                for m in more {
+                    grew |= tos.insert(m);
+                }
+            }
+            if !grew {
+                break;
+            }
+        }
+        let cyclic: BTreeSet<String> = reach.iter().filter(|(n, tos)| tos.contains(*n)).map(|(n, _)| n.clone()).collect();
+        let before = targets.len();
+        targets.retain(|(_, sch, _)| {
+            let direct = model::ref_targets(sch);
+            !direct.iter().any(|t| cyclic.contains(t) || reach.get(t).map(|r| r.iter().any(|x| cyclic.contains(x))).unwrap_or(false))
+        });
+        for _ in targets.len()..before {
+            self.out.probe("value_probe.recursive_type_skipped");
+        }
         let strip = |v: &Value| -> Value {
             let mut v = v.clone();
             if let Some(o) = v.as_object_mut() {
